@@ -302,6 +302,9 @@ func c15Run(t *testing.T, st *vstat.Stats, p c15Plan) (v *viol) {
 			st.Class("variant:" + k)
 			st.NonTrivial(fmt.Sprintf("%s/%d/%d/%s/%s", p.Trace, p.N, p.T, rec.OpID, k))
 		}
+		if containsStr(applied, "resultmsgs-many") {
+			st.Class("result-of-many-messages-posted:" + map[bool]string{true: "more-than-16", false: "up-to-16"}[len(boardOf()) > 16])
+		}
 		st.Class("operation:" + rec.Type)
 		st.SampleEvery(80, map[string]any{"trace": p.Trace, "n": p.N, "t": p.T, "operation_type": rec.Type, "variants_in_order": applied, "result_messages": len(genuine.ResultMsgs)})
 	})
